@@ -166,6 +166,14 @@ func (r *runner) build(n *core.Node, t Tx) pb.Transaction {
 	switch t.K {
 	case "transfer":
 		tx = n.TransferTx(from, r.addr(n, t.To, from), t.Amt)
+		// as it arrives from the wire: a block made by another node is decoded, sender and receiver are separate objects even
+		// when they name the same account
+		if b, err := (&pb.Transactions{Transactions: []pb.Transaction{tx}}).Marshal(); err == nil {
+			dec := &pb.Transactions{}
+			if dec.Unmarshal(b) == nil && len(dec.Transactions) == 1 && dec.Transactions[0].GetHash().String() == tx.GetHash().String() {
+				tx = dec.Transactions[0]
+			}
+		}
 	case "invoke":
 		if t.To == "nil" { // structure-level mutation: the callee field is missing
 			tx = n.RawTx(from, nil, core.InvokePayload(t.M, mkArgs(t.Args)...), nil)
